@@ -1,0 +1,27 @@
+//go:build verif
+
+package m3
+
+// Hooks for the verification harness (/verif). Compiled only with
+// `-tags verif`; nothing here is reachable from a normal build.
+
+import "sync/atomic"
+
+var verifYieldHook atomic.Value // of func(int)
+
+// verifYield hands control to the installed schedule controller, if any.
+// Points: 40 bucket handle (value written, call not yet made);
+// 41 reportCopyMetric entry, 42 after pending++, 43 after done was read false,
+// 44 before return (pending-- follows); 46 Flush after pending++, 47 after
+// done was read false, 48 before the send of the flush marker, 49 before
+// return; 51 Close after the CAS, 52 inside the spin, 53 past the spin,
+// 54 donech closed, 55 metCh closed (wait follows); 60 process() before the
+// loop, 61 after each receive, 62 after the loop (queue closed and drained).
+func verifYield(point int) {
+	if f, _ := verifYieldHook.Load().(func(int)); f != nil {
+		f(point)
+	}
+}
+
+// VerifSetYield installs (or, with nil, removes) the yield callback.
+func VerifSetYield(f func(int)) { verifYieldHook.Store(f) }
